@@ -163,13 +163,13 @@ def _expand_chunk(args):
                 bad = False
                 for v in system.invariants(st):
                     out['viol'].append((ci, (), None, v.to_dict())); bad = True
-                k = digest(system.canon(st))
+                k = digest((None if system.merge_across_configs else ci, system.canon(st)))
                 out['states'].add(k)
                 if not bad: out['succ'].append((ci, (), k))
             return out
         for ci, config, hist, k0 in items:
             st = _rebuild(system, config, hist)
-            k = digest(system.canon(st))
+            k = digest((None if system.merge_across_configs else ci, system.canon(st)))
             if k != k0:
                 raise HarnessError('HARNESS-NONDETERMINISM: digest of replayed history differs '
                                    f'from the digest recorded when it was first reached: config={config!r} hist={hist!r}')
@@ -201,7 +201,7 @@ def _expand_chunk(args):
                     out['cut'] += 1
                     continue
                 out['outcomes'].add(system.outcome(st, a, obs))
-                k1 = digest(system.canon(st))
+                k1 = digest((None if system.merge_across_configs else ci, system.canon(st)))
                 out['states'].add(k1)
                 try:
                     if system.nontrivial(st, a, obs):
@@ -219,6 +219,9 @@ def _expand_chunk(args):
     return out
 
 System.nontrivial_per_config = True
+#: states reached from different configs are merged only if the system says that canon() captures everything a
+#: config can influence (default: never merge across configs)
+System.merge_across_configs = False
 
 # --------------------------------------------------------------------------------------
 # master side
